@@ -150,7 +150,11 @@ def finish(prop, tier, obligations, t0, level='model_checking', functions=(), bo
     ev = dict(property_id=prop, tier=tier, seed=seed(), level=level, coverage=cov, assumptions=list(assumptions),
               wall_s=round(time.time() - t0, 2), violations=len(unknown_viol))
     os.makedirs(EVID, exist_ok=True)
-    with open(os.path.join(EVID, '%s.json' % prop), 'w') as f:
+    target = os.path.join(EVID, '%s.json' % prop)
+    if os.environ.get('VF_ONLY') or os.environ.get('VF_REPO'):
+        os.makedirs(WORK, exist_ok=True)
+        target = os.path.join(WORK, 'dev-evidence-%s.json' % prop)     # partial / scratch-tree development runs never touch evidence/
+    with open(target, 'w') as f:
         json.dump(ev, f, indent=1, sort_keys=True, default=str)
     print('%s %s: obligations=%d discharged=%d violated=%d (known %d) inconclusive=%d errors=%d paths=%d wall=%.1fs' % (
         prop, tier, len(obligations), len(disch), len(viol), len(viol) - len(unknown_viol), len(inconcl),
